@@ -806,6 +806,19 @@ func (env *SpecEnv) callExpr(n *ast.CallExpr) Val {
 			return TFalse
 		}
 		return Bool(env.x.chanHasInv(env.cur(), cv, d))
+	case "id":
+		// identity of a reference / interface value
+		switch p := env.eval(arg(0)).(type) {
+		case *IfaceV:
+			if p.Opaque != nil {
+				return p.Opaque
+			}
+		case *PtrV:
+			if p.Obj != nil {
+				return Int(int64(p.Obj.id))
+			}
+		}
+		return Int(0)
 	case "allNonNil":
 		// every value stored in the map is a non-nil reference
 		mv, ok := env.eval(arg(0)).(*MapV)
